@@ -1008,6 +1008,48 @@ func (ex *Exec) chanInvOf(v ssa.Value) (*Clause, types.Type) {
 	return &c, ch.Elem()
 }
 
+// syncMapInvOf: the content invariant declared for the sync.Map a call's receiver operand denotes - the
+// address of a sync.Map-typed field (&x.f) or the value of a *sync.Map-typed field (x.f).
+func (ex *Exec) syncMapInvOf(v ssa.Value) *Clause {
+	var fa *ssa.FieldAddr
+	switch x := v.(type) {
+	case *ssa.FieldAddr:
+		fa = x
+	case *ssa.UnOp:
+		if x.Op == token.MUL {
+			fa, _ = x.X.(*ssa.FieldAddr)
+		}
+	}
+	if fa == nil {
+		return nil
+	}
+	pt, ok := under(fa.X.Type()).(*types.Pointer)
+	if !ok {
+		return nil
+	}
+	st, ok := under(pt.Elem()).(*types.Struct)
+	if !ok {
+		return nil
+	}
+	ts := ex.Specs.Types[typeName(pt.Elem())]
+	if ts == nil || ts.SyncMapInv == nil {
+		return nil
+	}
+	if c, ok := ts.SyncMapInv[st.Field(fa.Field).Name()]; ok {
+		return &c
+	}
+	return nil
+}
+
+// syncMapFact evaluates a sync.Map content invariant for the entry (k, v).
+func (ex *Exec) syncMapFact(st *State, fr *Frame, c *Clause, k, v Value) *Term {
+	env := ex.loopEnv(st, fr)
+	anyT := types.NewInterfaceType(nil, nil)
+	env.vars["k"] = TV{k, anyT}
+	env.vars["v"] = TV{v, anyT}
+	return ex.evalBool(env, c.Expr)
+}
+
 // chanOpenOf: is the SSA value a read of a struct field whose channel is declared never closed.
 func (ex *Exec) chanOpenOf(v ssa.Value) bool {
 	ld, ok := v.(*ssa.UnOp)
